@@ -87,17 +87,31 @@ def extract(repo):
     for call in ("SCOPEresolve_subsupers(", "SCOPEresolve_types(", "SCOPEresolve_expressions_statements("):
         if call not in rb:
             raise ValueError(f"EXPRESSresolve: {call} not found")
-    # SCOPEfind_for_rename: own table, fully USE'd schemas, usedict, [uselist scan]
+    # SCOPEfind_for_rename: the statements the model depends on, in order; each is matched on its own so that an added guard
+    # or a reformatting elsewhere does not break the tie.  Recognised: own-table look-up; loop over use_schemas with an optional
+    # NULL skip; usedict look-up; optional uselist scan; `return 0`.
     ffr = _norm(_body(exp, r"\bstatic\s+void\s*\*\s*SCOPEfind_for_rename\s*\(\s*Scope\s+schema\s*,\s*char\s*\*\s*name\s*\)\s*\{"))
-    pat = (r"void\*result;Rename\*rename;result=DICTlookup\(schema->symbol_table,name\);if\(result\)\{returnresult;\}"
-           r"LISTdo\(schema->u\.schema->use_schemas,use_schema,Schema\)\{result=SCOPEfind_for_rename\(use_schema,name\);if\(result\)\{return\(result\);\}\}LISTod;"
-           r"rename=\(Rename\*\)DICTlookup\(schema->u\.schema->usedict,name\);if\(rename\)\{RENAMEresolve\(rename,schema\);DICT_type=rename->type;return\(rename->object\);\}"
-           r"(LISTdo\(schema->u\.schema->uselist,r,Rename\*\)if\(!strcmp\(\(r->nnew\?r->nnew:r->old\)->name,name\)\)\{RENAMEresolve\(r,schema\);DICT_type=r->type;return\(r->object\);\}LISTod;)?"
-           r"return0;$")
-    mf = re.match(pat, ffr)
-    if not mf:
-        raise ValueError("SCOPEfind_for_rename is not in the modelled shape: " + ffr[:500])
-    uselist_fallback = mf.group(1) is not None
+    steps = [
+        ("decls", r"void\*result;Rename\*rename;", True),
+        ("own", r"result=DICTlookup\(schema->symbol_table,name\);if\(result\)\{returnresult;\}", True),
+        ("full-use", r"LISTdo\(schema->u\.schema->use_schemas,use_schema,Schema\)\{(?P<skip>if\(!use_schema\)\{continue;\})?"
+                     r"result=SCOPEfind_for_rename\(use_schema,name\);if\(result\)\{return\(result\);\}\}LISTod;", True),
+        ("usedict", r"rename=\(Rename\*\)DICTlookup\(schema->u\.schema->usedict,name\);if\(rename\)\{RENAMEresolve\(rename,schema\);"
+                    r"DICT_type=rename->type;return\(rename->object\);\}", True),
+        ("uselist", r"LISTdo\(schema->u\.schema->uselist,r,Rename\*\)if\(!strcmp\(\(r->nnew\?r->nnew:r->old\)->name,name\)\)\{"
+                    r"RENAMEresolve\(r,schema\);DICT_type=r->type;return\(r->object\);\}LISTod;", False),
+        ("end", r"return0;$", True),
+    ]
+    pos, found = 0, {}
+    for nm, pat, required in steps:
+        m = re.compile(pat).match(ffr, pos)
+        if m:
+            found[nm] = m
+            pos = m.end()
+        elif required:
+            raise ValueError(f"SCOPEfind_for_rename: statement `{nm}` not found where the model expects it: ...{ffr[pos:pos + 160]}")
+    uselist_fallback = "uselist" in found
+    skips_null = found["full-use"].group("skip") is not None
     bi = _body(exp, r"\bvoid\s+BUILTINSinitialize\s*\(\s*\)\s*\{")
     builtins = re.findall(r"(?:funcdef|procdef)\s*\(\s*\"(\w+)\"\s*,\s*(\d+)", bi)
     if len(builtins) < 20:
@@ -110,7 +124,9 @@ def extract(repo):
            "/-- the same for `TYPE_check_select_cyclicity` -/",
            f"def visitedReturnsSelect : Bool := {'true' if sel_ret else 'false'}",
            "/-- `SCOPEfind_for_rename` falls back to scanning the exporting schema's not-yet-processed `uselist` -/",
-           f"def renameUselistFallback : Bool := {'true' if uselist_fallback else 'false'}", "",
+           f"def renameUselistFallback : Bool := {'true' if uselist_fallback else 'false'}",
+           "/-- `SCOPEfind_for_rename` skips the NULL entry a failed `USE FROM <schema>;` leaves in `use_schemas` (else: crash) -/",
+           f"def useSchemasSkipsNull : Bool := {'true' if skips_null else 'false'}", "",
            "/-- `BUILTINSinitialize`: (name, parameter count) -/",
            "def builtins : List (String × Nat) := [" + ", ".join(f'("{n}", {c})' for n, c in builtins) + "]",
            "", "end StepModel.Generated.ResolveGen", ""]
